@@ -119,6 +119,8 @@ def _draw_quant(rng, n, spec):
                 x = struct.unpack("f", struct.pack("f", x))[0]
             except OverflowError:
                 x = math.copysign(3.0e38, x)
+            if math.isinf(x):  # the data stays finite: inf is not a well-formed input
+                x = struct.unpack("f", struct.pack("f", math.copysign(3.0e38, x)))[0]
         if spec["dtype"] == "int":
             x = int(round(x))
         vals.append(x)
@@ -141,7 +143,7 @@ def _quant_spec(rng):
     )
     spec = {"sub": sub, "scale": 1.0, "shift": 0.0, "dtype": "float64"}
     if sub in ("normal", "uniform", "lognormal"):
-        spec["scale"] = rng.choice([1.0, 1.0, 1.0, 1e-9, 1e-3, 1e3, 1e6, 1e12, 37.5])
+        spec["scale"] = rng.choice([1.0, 1.0, 1.0, 1e-9, 1e-3, 1e3, 1e6, 1e12, 37.5, 1e21, 1e-30, 1e300])
         spec["shift"] = rng.choice([0.0, 0.0, 0.0, -5.0, 100.0, 1e6])
         spec["dtype"] = rng.choice(["float64", "float64", "float64", "float32"])
     if sub == "discrete":
@@ -178,8 +180,14 @@ def _cat_spec(rng, numeric_only=False, str_only=False):
         sub = "str"
     else:
         k = rng.randint(2, 7)
-        form = rng.choice(["int", "intfloat", "float", "mixed_str"])
-        if form == "int":
+        form = rng.choice(["int", "intfloat", "float", "mixed_str", "bool", "flag01"])
+        if form == "bool":
+            k = 2
+            cats = [True, False]
+        elif form == "flag01":
+            k = 2
+            cats = rng.choice([[0, 1], [0.0, 1.0]])
+        elif form == "int":
             cats = list(range(1, k + 1))
         elif form == "intfloat":
             cats = [float(i) for i in range(1, k + 1)]
@@ -191,9 +199,9 @@ def _cat_spec(rng, numeric_only=False, str_only=False):
     weights = _zipf_weights(len(cats), rng)
     effects = [rng.random() for _ in cats]
     spec = {"sub": sub, "cats": cats, "weights": weights, "effects": effects}
-    if sub in ("num_int", "num_intfloat", "num_float") and rng.random() < 0.5:
+    if sub in ("num_int", "num_intfloat", "num_float", "num_flag01") and rng.random() < 0.5:
         # a numeric pandas dtype instead of python objects (values come out of pandas as numpy scalars)
-        spec["col_dtype"] = "int64" if sub == "num_int" else "float64"
+        spec["col_dtype"] = "int64" if all(isinstance(c, int) for c in cats) else "float64"
     return spec
 
 
